@@ -32,6 +32,7 @@ type c08Spec struct {
 	taskVars map[string]string
 	taskDir  string
 	ctxEnv   map[string]string // env of the execution context the shared task runs in (nil: default context); below the task's env
+	globVars map[string]string // variables of the runner itself (configuration file / --set level); below the task's variables
 	stages   []stageOv
 	viaYAML  bool // build through internal/config (buildPipeline) instead of constructing Stage values
 	runs     int  // how many times the pipeline is run before the direct run
@@ -70,7 +71,7 @@ func (s c08Spec) line() string {
 	if td == "" {
 		td = "-"
 	}
-	return fmt.Sprintf("layers task=%s/%s/%s stages=%s", kvs(s.baseEnv()), kvs(s.taskVars), filepath.Base(td), strings.Join(st, ";"))
+	return fmt.Sprintf("layers task=%s/%s/%s stages=%s", kvs(s.baseEnv()), kvs(s.baseVars()), filepath.Base(td), strings.Join(st, ";"))
 }
 
 // what the task's commands see below any stage override: the context's env overlaid by the task's own env
@@ -80,6 +81,17 @@ func (s c08Spec) baseEnv() map[string]string {
 		m[k] = v
 	}
 	for k, v := range s.taskEnv {
+		m[k] = v
+	}
+	return m
+}
+
+func (s c08Spec) baseVars() map[string]string {
+	m := map[string]string{}
+	for k, v := range s.globVars {
+		m[k] = v
+	}
+	for k, v := range s.taskVars {
 		m[k] = v
 	}
 	return m
@@ -110,7 +122,7 @@ func expectedSeen(s c08Spec, i int, cwd string) string {
 	if dir == "" {
 		dir = cwd
 	}
-	return fmt.Sprintf("who=%s A=%s B=%s x=%s y=%s pwd=%s", who, get(s.baseEnv(), env, "A"), get(s.baseEnv(), env, "B"), get(s.taskVars, vars, "x"), get(s.taskVars, vars, "y"), dir)
+	return fmt.Sprintf("who=%s A=%s B=%s x=%s y=%s pwd=%s", who, get(s.baseEnv(), env, "A"), get(s.baseEnv(), env, "B"), get(s.baseVars(), vars, "x"), get(s.baseVars(), vars, "y"), dir)
 }
 
 func runC08Spec(s c08Spec) (lines []string, crashed string) {
@@ -205,6 +217,9 @@ func runC08Spec(s c08Spec) (lines []string, crashed string) {
 	if s.ctxEnv != nil {
 		opts = append(opts, runner.WithContexts(map[string]*runner.ExecutionContext{
 			"cx": runner.NewExecutionContext(nil, "", variables.FromMap(s.ctxEnv), nil, nil, nil, nil)}))
+	}
+	if s.globVars != nil {
+		opts = append(opts, runner.WithVariables(variables.FromMap(s.globVars)))
 	}
 	r, err := runner.NewTaskRunner(opts...)
 	if err != nil {
@@ -337,6 +352,9 @@ func runC08(col *Collector, tier string, seed int64) {
 		if rng.Intn(3) == 0 {
 			s.ctxEnv = pick([]string{"A", "B"}, "ctx")
 			s.ctxEnv["A"] = "ctx-A" // the context always defines A: a stage or task value for A must hide it
+		}
+		if rng.Intn(3) == 0 {
+			s.globVars = map[string]string{"x": "glob-x", "y": "glob-y"} // the runner defines both: stage and task values must hide them
 		}
 		for i := 0; i < n; i++ {
 			o := stageOv{env: pick([]string{"A", "B"}, fmt.Sprintf("s%d", i)), vars: pick([]string{"x", "y"}, fmt.Sprintf("s%d", i)), deps: deps[i]}
